@@ -372,7 +372,32 @@ def _checks():
             rule='token-built byte strings up to ~4 KB (newline, its '
                  'truncations, CR, LF, NUL, random bytes) x 10 newlines; '
                  'non-trivial = contains the newline and is longer than it'),
+        EnumCheck(
+            'interpreter-flags', flag_chunks, run_flag_chunk,
+            run_case=run_flag_case,
+            rule='10 strings x 10 newlines x both modes split in this '
+                 'interpreter and in children started with python -O and '
+                 'python -bb: identical results (nothing may hang on an '
+                 'assert statement being executed or on comparing bytes '
+                 'with str); every comparison is non-trivial',
+            bound={'quick': '200 results, three interpreters',
+                   'thorough': 'same'}),
     ]
+
+
+def flag_chunks(tier, seed):
+    return ['python -O / -bb']
+
+
+def run_flag_chunk(_chunk, st):
+    from dxv import ocheck
+    n = ocheck.compare(st, ('split',), sut.HarnessError)
+    st.bulk(n, n, sample={'results-compared': n})
+
+
+def run_flag_case(case, st):
+    run_flag_chunk(None, st)
+    st.case(case, nontrivial=True)
 
 
 def checks():
